@@ -344,7 +344,7 @@ impl Sys for PSys {
 pub fn run_c15(tier: &str, config: &str) -> Report {
     let mut rep = Report::new("C15", tier, config);
     let th = tier == "thorough";
-    let depth = if th { 5 } else { 4 };
+    let depth = if th { 24 } else { 12 };
     let mut values: Vec<u64> = vec![0, 1, 0xffff_ffff, 1 << 32, 1 << 63, u64::MAX, 0x0123_4567_89ab_cdef];
     if th {
         values.extend_from_slice(&[u64::MAX - 1, u64::MAX - 3, (1 << 32) - 4, 0xffff_ffff_0000_0000]);
